@@ -42,6 +42,7 @@ func c16Exec(sizes []int, permMangler bool) explore.Exec {
 		res := harness.RunExec(c, false, 40000000, func() {
 			cs.n = sizes[harness.Choose(len(sizes), harness.ClassOp)]
 			cs.kind = harness.Choose(3, harness.ClassOp)
+			rev := harness.Choose(2, harness.ClassOp) == 1
 			cs.prio = harness.Choose(3, harness.ClassOp)
 			cs.keyset = 0
 			if cs.n <= 200 {
@@ -56,22 +57,27 @@ func c16Exec(sizes []int, permMangler bool) explore.Exec {
 				cs.mangler = harness.Choose(nm, harness.ClassOp)
 				cs.withVal = harness.Choose(2, harness.ClassOp) == 1
 			}
-			desc = fmt.Sprintf("n=%d kind=%d prio=%d keyset=%d api=%d mangler=%d withValue=%v", cs.n, cs.kind, cs.prio, cs.keyset, cs.api, cs.mangler, cs.withVal)
+			desc = fmt.Sprintf("n=%d kind=%d prio=%d keyset=%d api=%d mangler=%d withValue=%v reverseComparator=%v", cs.n, cs.kind, cs.prio, cs.keyset, cs.api, cs.mangler, cs.withVal, rev)
+			var cmp gkvlite.KeyCompare
+			if rev {
+				cmp = harness.Cmps["rev"]
+			}
+			cb := gkvlite.StoreCallbacks{KeyCompareForCollection: func(string) gkvlite.KeyCompare { return cmp }}
 			harness.BeginOp("build")
 			var f *harness.MemFile
 			var st *gkvlite.Store
 			var err error
 			if cs.kind == 0 {
-				st, err = gkvlite.NewStore(nil)
+				st, err = gkvlite.NewStoreEx(nil, cb)
 			} else {
 				f = &harness.MemFile{}
-				st, err = gkvlite.NewStore(f)
+				st, err = gkvlite.NewStoreEx(f, cb)
 			}
 			if err != nil {
 				fail("setup", "NewStore: %v", err)
 				return
 			}
-			x := st.SetCollection("x", nil)
+			x := st.SetCollection("x", cmp)
 			want := map[string]bool{}
 			for i := 0; i < cs.n; i++ {
 				var p int32
@@ -102,7 +108,7 @@ func c16Exec(sizes []int, permMangler bool) explore.Exec {
 					x.EvictSomeItems()
 				} else {
 					st.Close()
-					st, err = gkvlite.NewStore(f)
+					st, err = gkvlite.NewStoreEx(f, cb)
 					if err != nil {
 						fail("setup", "reopen: %v", err)
 						return
@@ -231,7 +237,7 @@ func c16Profiles(tier string) []Profile {
 		big = []int{1023, 1024, 1025, 2047, 2048, 2049, 3071, 3072, 3073}
 	}
 	return []Profile{
-		{Name: "small", Exec: c16Exec(small, true), Rule: "n in 0..5 x {memory, flushed+evicted, reopened} x 3 priority patterns x 2 key sets x {Len, VisitItemsAscendBlockEx with nil/identity/reverse/rotate/every permutation x withValue, VisitItemsRandom with every answer sequence of the random source (every block permutation)}"},
+		{Name: "small", Exec: c16Exec(small, true), Rule: "n in 0..5 x {memory, flushed+evicted, reopened} x 3 priority patterns x 2 key sets x {default, reverse comparator} x {Len, VisitItemsAscendBlockEx with nil/identity/reverse/rotate/every permutation x withValue, VisitItemsRandom with every answer sequence of the random source (every block permutation)}"},
 		{Name: "sweep", Exec: c16Exec(sweep, false), Budget: map[int]int{explore.ClassRand: 1}, Rule: fmt.Sprintf("n in 6..%d, same product; VisitItemsRandom with the default answer sequence and every single deviation from it", top)},
 		{Name: "big", Exec: c16Exec(big, false), Budget: map[int]int{explore.ClassRand: 0}, Rule: fmt.Sprintf("n in %v (not a multiple of the block length / above the maximum block count), same product, default random answers", big)},
 	}
